@@ -279,6 +279,45 @@ pub fn run(ctx: &Ctx) -> i32 {
                 ev.count("builds:duplicated-wide-subautomata");
             }
         }
+        // a FINAL node that is wide (a key that is a prefix of many others) and carries a residual output, surrounded by keys that
+        // share a plain suffix before and after it: whatever the builder recycles from the wide node must not keep the equal suffix
+        // nodes apart
+        for (fi, &fo) in [2usize, 31, 32, 33, 34, 40, 63, 64, 65, 100, 200, 255].iter().enumerate() {
+            for variant in 0..6usize {
+                if (fi * 6 + variant + 3) % n != shard {
+                    continue;
+                }
+                let suffix: &[u8] = [&b"xy"[..], &b"xyz"[..], &b"x"[..]][variant % 3];
+                let stem_value = [5u64, 1 << 33, 0][variant / 2 % 3];
+                let mut kv: Kv = vec![];
+                kv.push(([&b"0"[..], suffix].concat(), 0));
+                kv.push((b"a".to_vec(), stem_value));
+                for c in 0..fo {
+                    kv.push((vec![b'a', (0x21 + c) as u8], if variant % 2 == 0 { 0 } else { c as u64 }));
+                }
+                kv.push(([&b"b"[..], suffix].concat(), 0));
+                kv.push(([&b"c"[..], suffix].concat(), if variant % 2 == 0 { 0 } else { 9 }));
+                kv.push(([&b"c"[..], suffix, suffix].concat(), 10));
+                kv.push(([&b"d"[..], suffix].concat(), 0));
+                kv.sort();
+                ev.fps.insert(crate::rng::fnv_u64(0xf1a1, (fi * 6 + variant) as u64));
+                judge(&kv, GEOMS[0], "a wide final node with a residual output between keys sharing a suffix", ev);
+                ev.count("builds:wide-final-node-between-shared-suffixes");
+            }
+        }
+        // the agent-found witness of round 7: a node whose 64-bit cache digest has an all-zero upper half (2^-32 per node)
+        {
+            let mut kv: Kv = vec![];
+            for p in [b'x', b'y'].iter() {
+                for c in b"48IORVai".iter() {
+                    kv.push((vec![*p, *c], 0));
+                }
+            }
+            kv.sort();
+            if shard == 2 % n {
+                judge(&kv, GEOMS[0], "a node whose cache digest has a zero upper half", ev);
+            }
+        }
         // sharing that must survive distance and history: (1) a few tiny states reused by many WIDE nodes across a file of
         // hundreds of KB (targets > 64 KiB back), (2) common suffixes separated by long runs of unique nodes
         for variant in 0..ctx.tier.pick(9, 36) {
@@ -394,7 +433,7 @@ pub fn run(ctx: &Ctx) -> i32 {
             level: "exploration",
             rule: "one evaluation = one build whose emitted node graph (read by the independent decoder) is compared with harness-side oracles: (1) always: #reachable nodes <= #nodes of the keys' prefix trie; (2) when the cache counters (hook H2) show zero evictions and the cache has cells: no two reachable nodes have the same signature (final, final output, [(byte, output, class(child))]) and, for sets, #nodes == #states of the minimal acyclic DFA computed by bottom-up right-language classes on the trie; (3) corpora as sets: (trie - emitted)/(trie - minimal) > 0.5; builds: ALL 32768 subsets of {a,b}^<=3 as sets (default geometry) and as two maps each (rotating geometries 10000x2, 0x0, 1x1, 1x3, 7x2, 64x2), the same wide fan under several prefixes, tiny states reused by 60-180 wide nodes across files of hundreds of KB, common suffixes separated by runs of 100-3000 unique nodes, suffixes of 200-1200 bytes shared under different prefixes, equivalent wide nodes whose outputs exceed 2^33, random sets/maps to 3000 keys, thorough also all subsets of {a,b,c}^<=2; builds with evictions or without cache are counted and excluded from (2); non-trivial = every build; distinct = by fingerprint",
             assumptions: vec!["the premise 'no eviction' is taken from the cfg-guarded counters in registry.rs; a tree that replaces the cache implementation keeps them at 0, i.e. claims never to evict".into(), "'most of the achievable sharing' is read as a ratio > 0.5; measured ratios are recorded".into()],
-            floors: vec![("builds:premise-no-eviction-observed", 1000), ("builds:sets-compared-with-minimal-dfa", 1000), ("builds:excluded-from-minimality(evictions-or-no-cache)", 10), ("corpora-judged", 2), ("builds:duplicated-wide-subautomata", 60), ("builds:far-back-and-history-shapes", 9), ("builds:side-by-side-on-one-thread", 300)],
+            floors: vec![("builds:premise-no-eviction-observed", 1000), ("builds:sets-compared-with-minimal-dfa", 1000), ("builds:excluded-from-minimality(evictions-or-no-cache)", 10), ("corpora-judged", 2), ("builds:duplicated-wide-subautomata", 60), ("builds:far-back-and-history-shapes", 9), ("builds:side-by-side-on-one-thread", 300), ("builds:wide-final-node-between-shared-suffixes", 60)],
             exhaustive: Some(true),
         },
     )
